@@ -111,8 +111,36 @@ def shard(args):
     return acc.export()
 
 
+def shard_exotic(args):
+    """Long / many-run / unusual-character values: splice at every pair of boundary points with every replacement value."""
+    tier, seed, idx = args
+    acc = Acc(seed=seed)
+    specs = C.exotic_specs()
+    news = [make_new(ns) for ns in NEW_SPECS]
+    news_cells = [C.cells(n) for n in news]
+    for si in range(idx, len(specs), 16):
+        spec = specs[si]
+        f = C.build(spec)
+        fcells = C.spec_cells(spec)
+        if C.cells(f) != fcells:
+            acc.failure("harness:universe_build", {"f": C.show_spec(spec)}, "")
+            continue
+        snap = C.snapshot(f)
+        n = len(fcells)
+        pts = [p_ for p_ in C.boundary_points(spec) if 0 <= p_ <= n + 2]
+        for ni in (1, 3, 4, 0, 6):
+            for start in pts:
+                for end in [None] + [e for e in pts if e >= start]:
+                    acc.case(True, key=("x", si, ni, start, end), sample=lambda: {"f": C.show_spec(spec), "new": NEW_SPECS[ni], "start": start, "end": end})
+                    acc.transitions += 1
+                    check_one(acc, spec, f, fcells, snap, ni, news[ni], news_cells[ni], start, end)
+    return acc.export()
+
+
 def run(ctx):
     rep = Report()
+    for d in ctx.pmap(shard_exotic, [(ctx.tier, ctx.seed, i) for i in range(16)]):
+        rep.merge(d, "long_and_exotic_values")
     k, L = bounds(ctx.tier)
     for d in ctx.pmap(shard, [(ctx.tier, ctx.seed, i) for i in range(NSHARDS)]):
         rep.merge(d)
